@@ -59,6 +59,18 @@ def loopEF (add : A → A → A) (f : α → α → A × A) : List α → List A
     res.1 :: loopEF add f rest res.2
   | _, _ => []
 
+/-- `for (i=N_active;i<N;i++) for (j=0;j<N_active;j++) body(i,j)`: test particles against
+    the active ones (gravity.c:200-222 and 1075-1115).  `back` = `testparticle_type`: only then
+    is `a[j]` updated.  Returns (accumulators of the active particles, accumulators of the
+    test particles). -/
+def crossLoop (add : A → A → A) (zero : A) (f : α → α → A × A) (back : Bool) (act : List α) :
+    List A → List α → List A × List A
+  | accs, [] => (accs, [])
+  | accs, pi :: rest =>
+    let res := inner add f pi zero act accs
+    let r := crossLoop add zero f back act (if back then res.2 else accs) rest
+    (r.1, res.1 :: r.2)
+
 end loops
 
 variable {K : Type} [Scalar K]
@@ -83,6 +95,13 @@ def forcePair (G soft2 : K) (sq : K → K) (pi pj : GP K) : V3 K × V3 K :=
 /-- accelerations of all particles, all active -/
 def accBasicAll (G soft2 : K) (sq : K → K) (ps : List (GP K)) : List (V3 K) :=
   loopLF V3.add V3.zero (forcePair G soft2 sq) [] [] ps
+
+/-- accelerations with `N_active < N`: `act` active particles, `tst` test particles of type
+    `tptype` (gravity.c:161-222); result in index order -/
+def accBasicSplit (G soft2 : K) (sq : K → K) (tptype : Bool) (act tst : List (GP K)) : List (V3 K) :=
+  let a := loopLF V3.add V3.zero (forcePair G soft2 sq) [] [] act
+  let r := crossLoop V3.add V3.zero (forcePair G soft2 sq) tptype act a tst
+  r.1 ++ r.2
 
 /-- gravity.c:200-212, one term of the force on a test particle at `(x,y,z)` -/
 def tpForceTerm (G soft2 : K) (sq : K → K) (x y z : K) (pj : GP K) : V3 K :=
@@ -133,6 +152,12 @@ def var1Pair (G : K) (sq : K → K) (pi pj : RV1 K) : V3 K × V3 K :=
 /-- accelerations of a full first-order set (`vc.testparticle < 0`), all particles active -/
 def accVar1 (G : K) (sq : K → K) (ps : List (RV1 K)) : List (V3 K) :=
   loopLF V3.add V3.zero (var1Pair G sq) [] [] ps
+
+/-- first-order set with `N_active < N` (gravity.c:1036-1115) -/
+def accVar1Split (G : K) (sq : K → K) (tptype : Bool) (act tst : List (RV1 K)) : List (V3 K) :=
+  let a := loopLF V3.add V3.zero (var1Pair G sq) [] [] act
+  let r := crossLoop V3.add V3.zero (var1Pair G sq) tptype act a tst
+  r.1 ++ r.2
 
 /-- gravity.c:1125-1152: one term of the single test-particle variation.
     `(x,y,z)`: real particle `vc.testparticle`; `(ddx,ddy,ddz)`: its variational particle. -/
